@@ -170,6 +170,15 @@ def unique_id_source(prog, gen):
     for n in walk(gen["body"]):
         if n.get("k") == "return" and n.get("e") is not None:
             e = strip_casts(n["e"])
+            while e.get("k") == "construct" and e.get("args") and len(e["args"]) == 1:
+                e = strip_casts(e["args"][0])
+            # the fresh id held in a local first: `const auto id = ++counter; return id;`
+            if e.get("k") == "ref" and e.get("rk") == "local":
+                from ..paths import ref_inits
+                v = ref_inits(gen).get(e.get("vid"))
+                assigned = any(x.get("k") == "assign" and strip_casts(x["lhs"]).get("vid") == e.get("vid") for x in walk(gen["body"]))
+                if v is not None and v.get("init") is not None and not assigned:
+                    e = strip_casts(v["init"])
             tgt = None
             if e.get("k") == "call" and e.get("op") == "++":
                 tgt = e.get("obj") or (e.get("args") or [None])[0]
